@@ -16,7 +16,7 @@ from ..common import ToolError
 from ..extract import base
 
 NEEDS = ["driver"]
-TOK = {"TXT": "word", "NL": "\n", "CRLF": "\r\n", "CR": "\r", "SL": "*", "NLSL": "\n*", "NLBC": "\n*/", "BC": "*/", "BO": "/*", "LC": "//", "TDQ": '"""', "DDQ": '""', "QDQ": '""""', "PDQ": '"""""', "TSQ": "'''", "BS": "\\", "HASH": "#", "BT": "`", "DQ": '"'}
+TOK = {"TXT": "word", "NL": "\n", "CRLF": "\r\n", "CR": "\r", "SL": "*", "NLSL": "\n*", "NLBC": "\n*/", "BCCR": "*\r/", "BC": "*/", "BO": "/*", "LC": "//", "TDQ": '"""', "DDQ": '""', "QDQ": '""""', "PDQ": '"""""', "TSQ": "'''", "BS": "\\", "HASH": "#", "BT": "`", "DQ": '"'}
 POSITIONS = ["type", "field", "variant", "vfield", "alias", "uvariant", "tagged"]
 MARK = re.compile(r"D\d+x")
 
@@ -40,9 +40,9 @@ def attr(doc, style, indent=""):
 
 def usable(doc, style):
     if style == "block":       # the text must not end the Rust block comment itself, and /* must not open a nested one
-        return "BC" not in doc and "BO" not in doc and "CR" not in doc and "NLBC" not in doc
+        return "BC" not in doc and "BO" not in doc and "CR" not in doc and "NLBC" not in doc and "BCCR" not in doc
     if style == "line":        # a bare carriage return is not allowed in a Rust `///` comment; CR LF is an ordinary line ending
-        return "CR" not in doc
+        return "CR" not in doc and "BCCR" not in doc
     return True
 
 
